@@ -66,15 +66,18 @@ fn cfg_of(glr: bool, ps: bool, pse: bool, pager: bool) -> Cfg {
 
 #[derive(Clone, Debug, PartialEq, Eq, PartialOrd, Ord)]
 enum Cand {
-    Shift,          // Shift or Accept
-    Reduce(usize),  // dump production index
+    /// Shift (with its target state) or Accept (usize::MAX)
+    Shift(usize),
+    /// dump production index, reduction length
+    Reduce(usize, usize),
 }
 
 fn render_cell(acts: &[DAction]) -> Vec<Cand> {
     acts.iter()
         .map(|a| match a {
-            DAction::Shift(_) | DAction::Accept => Cand::Shift,
-            DAction::Reduce(p, _) => Cand::Reduce(*p),
+            DAction::Shift(t) => Cand::Shift(*t),
+            DAction::Accept => Cand::Shift(usize::MAX),
+            DAction::Reduce(p, l) => Cand::Reduce(*p, *l),
         })
         .collect()
 }
@@ -240,7 +243,7 @@ fn check_table(c: &TableCase, st: &mut Stats) -> Outcome {
                 return Outcome::fail("cell|invented-action", ctx(""));
             }
             let sp = model.shift_prios(q, a);
-            let has_shift = cands.contains(&Cand::Shift);
+            let has_shift = cands.iter().any(|c| matches!(c, Cand::Shift(_)));
             let is_accept = rs.actions[a].iter().any(|x| matches!(x, DAction::Accept));
             let shift_prio: Option<u32> = if !has_shift {
                 None
@@ -263,14 +266,14 @@ fn check_table(c: &TableCase, st: &mut Stats) -> Outcome {
                 for j in (i + 1)..cv.len() {
                     let mut dec = "";
                     let r: Option<bool> = match (&cv[i], &cv[j]) {
-                        (Cand::Shift, Cand::Reduce(p)) => match shift_prio {
+                        (Cand::Shift(_), Cand::Reduce(p, _)) => match shift_prio {
                             Some(spv) => model.reduce_vs_shift(*p, spv, a, &mut dec).map(|b| !b),
                             None => {
                                 decidable = false;
                                 None
                             }
                         },
-                        (Cand::Reduce(p1), Cand::Reduce(p2)) => model.reduce_vs_reduce(*p1, *p2, &mut dec),
+                        (Cand::Reduce(p1, _), Cand::Reduce(p2, _)) => model.reduce_vs_reduce(*p1, *p2, &mut dec),
                         _ => None,
                     };
                     deciding_rules.push(dec);
@@ -392,8 +395,8 @@ fn check_table(c: &TableCase, st: &mut Stats) -> Outcome {
 }
 
 fn shape(s: &BTreeSet<Cand>) -> String {
-    let sh = s.contains(&Cand::Shift);
-    let r = s.iter().filter(|c| matches!(c, Cand::Reduce(_))).count();
+    let sh = s.iter().any(|c| matches!(c, Cand::Shift(_)));
+    let r = s.iter().filter(|c| matches!(c, Cand::Reduce(..))).count();
     format!("{}{}", if sh { "S" } else { "" }, "R".repeat(r))
 }
 
